@@ -50,6 +50,7 @@ class Sched:
         self.adopted = set()     # actors that are threads started by the code under test
         self.timed = {}          # actor -> virtual deadline of a timed wait
         self.timed_out = set()
+        self.step_cost = 0.0     # virtual seconds that pass per scheduler step (0: sleeps outlast all)
         self.prev = None         # enclosing scheduler (nested runs)
         self.thread_count = 0
         self.contention = 0      # probe: an actor found a lock held and had to wait
@@ -167,6 +168,13 @@ class Sched:
             self.budget = True
             self._abort(me, finished)
             return
+        if self.step_cost and self.timed:
+            # every scheduler step costs virtual time: a sleeper wakes up while the others are
+            # still at work (with step_cost = 0 a sleep outlasts everything the others can do)
+            SIM.clock += self.step_cost
+            for a in self.order:
+                if a in self.timed and a not in self.done and self.timed[a] <= SIM.clock:
+                    self.timed_out.add(a)
         r = self._runnable()
         if not r:
             if len(self.done) == len(self.order):
